@@ -105,7 +105,10 @@ def install_wake_logger():
 
     def logged(self, switch):
         run = _wrapped.get("run")
-        if run is not None and run.vm is not None and self is run.vm.machine.switch_controller and not run.finished:
+        if run is not None and run.vm is not None and run.vm.machine is not None and \
+                self is run.vm.machine.switch_controller:
+            if run.finished:
+                return None       # teardown (or a runaway that was cut): drop the wake-up instead of re-arming it
             run.on_wake(switch)
         return orig(self, switch)
     SwitchController._process_active_timed_switches = logged
@@ -440,10 +443,18 @@ class EventRun:
         self.log = []
         self.finished = False
         self.crash = None
+        self.wakes = 0
+        self.vm = None
 
     def tick(self):
         x = (self.vm.now() - self.t0) / TICK
         return int(x) if x == int(x) else round(x, 6)
+
+    def on_wake(self, switch):
+        self.wakes += 1
+        if self.wakes > 3000:
+            self.finished = True
+            raise RuntimeError("runaway: more than 3000 wake-ups in one case")
 
     def handler(self, name):
         def h(**kwargs):
@@ -455,11 +466,13 @@ class EventRun:
         return h
 
     def run(self):
+        install_wake_logger()
         self.vm = VMachine(EV_CONFIG % (self.case["window"] * 125))
         try:
             self.vm.start()
         except BootError as e:
             raise InfraError("C03 event machine does not boot: %s" % e)
+        _wrapped["run"] = self
         try:
             vm = self.vm
             m = vm.machine
@@ -484,6 +497,7 @@ class EventRun:
             self.end = self.tick()
         finally:
             self.finished = True
+            _wrapped["run"] = None
             self.vm.stop()
         return self
 
